@@ -24,6 +24,7 @@ import (
 	"strconv"
 	"strings"
 	"sync"
+	"syscall"
 	"testing"
 	"time"
 
@@ -42,6 +43,10 @@ type c05In struct {
 }
 
 type c05Side struct {
+	// Fin: "" - end of stream is a separate Read returning (0, io.EOF); "eof" - the Read that returns the last
+	// bytes returns io.EOF with them (io.Reader allows n > 0 together with an error: TLS record layers and
+	// other framed conns do it); "reset" - the last bytes come together with a connection-reset error
+	Fin    string  `json:"fin"`
 	Chunks []c05In `json:"chunks"`
 	EofAt  int64   `json:"eof_at"` // -1: stays open and silent for ever
 }
@@ -203,6 +208,8 @@ type c05Conn struct {
 	idleOK   bool // reader not started yet (prologue phase: R has no reader)
 	reads    []c05ReadRec
 	eofSpins int
+	fin      string // see c05Side.Fin
+	finDone  bool   // the final (data, error) read has been delivered
 }
 
 func (k *c05Clock) ev(c *c05Conn, what string, arg int64) {
@@ -281,9 +288,25 @@ func (c *c05Conn) Read(p []byte) (int, error) {
 				c.pos++
 				c.off = 0
 			}
-			c.rec(len(p), n, 0)
 			c.eofSpins = 0
+			if c.fin != "" && c.pos >= len(c.in) && c.eofAt >= 0 && c.eofAt <= k.now {
+				// the last bytes and the end of the stream in ONE Read
+				c.finDone = true
+				if c.fin == "reset" {
+					c.rec(len(p), n, 4)
+					k.ev(c, "rdreset", int64(n))
+					return n, &net.OpError{Op: "read", Net: "mem", Err: syscall.ECONNRESET}
+				}
+				c.rec(len(p), n, 1)
+				k.ev(c, "rdeof", int64(n))
+				return n, io.EOF
+			}
+			c.rec(len(p), n, 0)
 			return n, nil
+		}
+		if c.pos >= len(c.in) && c.eofAt >= 0 && c.eofAt <= k.now && c.fin == "reset" {
+			c.rec(len(p), 0, 4)
+			return 0, &net.OpError{Op: "read", Net: "mem", Err: syscall.ECONNRESET}
 		}
 		if c.pos >= len(c.in) && c.eofAt >= 0 && c.eofAt <= k.now {
 			c.rec(len(p), 0, 1)
@@ -578,8 +601,8 @@ func c05RunMem(cs *c05Case, gate *c05Gate) (res c05Result) {
 		clk.timeouts = append(clk.timeouts, cs.SniffMs)
 	}
 	clk.cond = sync.NewCond(&clk.mu)
-	L := &c05Conn{clk: clk, name: "L", dl: -1, eofAt: cs.Client.EofAt}
-	R := &c05Conn{clk: clk, name: "R", dl: -1, eofAt: cs.Server.EofAt, idleOK: true}
+	L := &c05Conn{clk: clk, name: "L", dl: -1, eofAt: cs.Client.EofAt, fin: cs.Client.Fin}
+	R := &c05Conn{clk: clk, name: "R", dl: -1, eofAt: cs.Server.EofAt, idleOK: true, fin: cs.Server.Fin}
 	L.peer, R.peer = R, L
 	var clientAll []byte
 	L.in, clientAll = c05Decode(cs.Client)
